@@ -515,6 +515,9 @@ class ImagePlaceholder:
                     if cell_formatting is not None:
                         line += cell_formatting(col, row)
                     line += b" "
+                # Reset formatting after blank lines too.
+                if not no_escape:
+                    line += b"\033[0m"
                 result.append(line)
                 continue
             # Insert fg and underline colors encoding IDs.
